@@ -69,6 +69,10 @@ Verdict(o) ==
 \* (on its own terminal-like object named "t<s-1>"); user handles / files are descriptors >= 3 on objects named by Name(fd).
 \* (a user handle that is itself descriptor 0, 1 or 2 refers to the parent's own standard stream object)
 Name(fd) == IF fd <= 2 THEN "t" \o ToString(fd) ELSE "o" \o ToString(fd)
+\* 0 means "no FILE given", so a FILE stream whose descriptor IS 0 (a program that closed its stdin and opened a file, or
+\* simply passes `stdin`) is written F0; FdOf gives the descriptor behind the field
+F0 == 1000
+FdOf(f) == IF f = F0 THEN 0 ELSE f
 
 Acc(s) == IF s = 1 THEN "r" ELSE "w"
 
@@ -81,7 +85,7 @@ Tok(eff, k, s) ==
     [] e.t = T_PARENT -> IF k.std[s] THEN "u:t" \o ToString(s - 1) ELSE "n" \o Acc(s)
     [] e.t = T_DISCARD -> "n" \o Acc(s)
     [] e.t = T_HANDLE -> IF e.h <= 2 /\ ~k.std[e.h + 1] THEN "?" ELSE "u:" \o Name(e.h)
-    [] e.t = T_FILE -> IF e.f <= 2 /\ ~k.std[e.f + 1] THEN "?" ELSE "u:" \o Name(e.f)
+    [] e.t = T_FILE -> IF FdOf(e.f) <= 2 /\ ~k.std[FdOf(e.f) + 1] THEN "?" ELSE "u:" \o Name(FdOf(e.f))
     [] e.t = T_PATH -> "f" \o Acc(s) \o ":" \o e.p
     [] OTHER -> "?"
 
